@@ -17,7 +17,7 @@ def worker(inst):
     from harness.schedules import SCHEDULES, immediate
     from lang.prog import stack
     sched, theme, prog, twin = inst
-    tmo = 4000 if os.environ.get("VERIF_TIER", "quick") == "quick" else 30000
+    tmo = 4000 if os.environ.get("VERIF_TIER", "quick") == "quick" else 8000
     from harness.core import SideViolation
 
     def builder(p, leaves):
@@ -87,10 +87,10 @@ def programs(tier, seed):
     for theme in ("real", "log", "bool", "int", "pos"):
         d1 = list(gen.depth1(theme))
         rng.shuffle(d1)
-        out += [(theme, p) for p in d1[:60 if tier == "quick" else 400]]
+        out += [(theme, p) for p in d1[:60 if tier == "quick" else 300]]
         d2 = list(gen.depth2(theme, rng, per_inner=1 if tier == "quick" else 3))
         rng.shuffle(d2)
-        out += [(theme, p) for p in d2[:40 if tier == "quick" else 600]]
+        out += [(theme, p) for p in d2[:40 if tier == "quick" else 400]]
     out += [("real", p) for p in gen.einsum_progs()] + [("real", p) for p in gen.independent_progs()] + [("real", p) for p in gen.constant_progs()[::2]] + [("sameop:nondistributive", p) for p in gen.nondistributive_progs()] + [("sameop:stack", p) for p in gen.stack_hetero_progs()]
     from checks.c08 import SEMIRINGS, gen_mixed, gen_sameop, gen_signed_maxmul, gen_sumproducts
     out += [("sameop:signed-maxmul", p) for p in gen_signed_maxmul(rng, 12 if tier == "quick" else 120)]
